@@ -179,6 +179,8 @@ class Registry:
         self.lib_cms: dict[str, tuple] = {}               # lib class -> (enter(eng, st, cm, is_async, item), exit(eng, outcome, cm, is_async, item))
         self.func_calls: dict[str, object] = {}           # repo function qual -> handler(eng, st, pos, kw, node) (e.g. CM factories)
         self.run_exit_stack = None
+        self.with_rely: dict[str, object] = {}            # class -> fn(old, new, addr): what stays true of an object while this
+                                                          # activation is inside `with obj` (only the entering task leaves it)
         self.ext_calls: dict[str, object] = {}            # dotted external function -> handler(eng, st, pos, kw, node)
         self.guarantees: list = []                        # (name, fn(old, new))
         self.invariants: list = []                        # (name, fn(heapview))
@@ -314,6 +316,7 @@ class Registry:
 
     def default_factory(self, eng, st, node: ast.expr) -> SV:
         name = node.id if isinstance(node, ast.Name) else ast.unparse(node)
+        name = getattr(self, "default_factory_alias", {}).get(name, name)
         if name == "set":
             return SV(vref(st.new_set()), SET())
         if name == "list":
